@@ -49,7 +49,7 @@ theorem callArgs_ok (ns : List (List NPart)) (hok : ∀ n ∈ ns, NWordOK n) (in
     ∀ (tps : List TokPos) (acc : List Word) (fuel : Nat), fuel ≥ ns.length + 1 →
       toksMatch (ns.map ATok.word ++ k) tps →
       ∃ ws tps', callArgs fuel inSub ⟨tps⟩ acc = .ok (acc.reverse ++ ws, ⟨tps'⟩) ∧
-        ws.map Word.norm = ns ∧ toksMatch k tps' := by
+        ws.map Word.norm = ns ∧ toksMatch k tps' ∧ (∀ x ∈ tps', x ∈ tps) := by
   induction ns with
   | nil =>
     intro tps acc fuel hf hm
@@ -59,7 +59,7 @@ theorem callArgs_ok (ns : List (List NPart)) (hok : ∀ n ∈ ns, NWordOK n) (in
     cases fuel with
     | zero => simp at hf
     | succ n =>
-      refine ⟨[], (t, p) :: ts, ?_, rfl, ⟨hma, hmr⟩⟩
+      refine ⟨[], (t, p) :: ts, ?_, rfl, ⟨hma, hmr⟩, fun x hx => hx⟩
       rw [callArgs_stop n inSub a t p ts acc hma hs]
       simp
   | cons n ns ih =>
@@ -71,9 +71,9 @@ theorem callArgs_ok (ns : List (List NPart)) (hok : ∀ n ∈ ns, NWordOK n) (in
     cases fuel with
     | zero => simp at hf
     | succ f =>
-      obtain ⟨ws, tps', h1, h2, h3⟩ := ih (fun m hm' => hok m (by simp [hm'])) ts (w :: acc) f
+      obtain ⟨ws, tps', h1, h2, h3, h3'⟩ := ih (fun m hm' => hok m (by simp [hm'])) ts (w :: acc) f
         (by simp only [List.length_cons] at hf; omega) hmr
-      refine ⟨w :: ws, tps', ?_, ?_, h3⟩
+      refine ⟨w :: ws, tps', ?_, ?_, h3, fun x hx => by simp [h3' x hx]⟩
       · have hstep : callArgs (f + 1) inSub ⟨(Tok.word w lit, p) :: ts⟩ acc = callArgs f inSub ⟨ts⟩ (w :: acc) := by
           cases lit with
           | none => simp [callArgs, PS.tok, PS.next]
@@ -232,7 +232,8 @@ theorem firstCmdF_call (args : List (List NPart)) (hv : (LCmd.call args).valid =
     (neg : Bool) (k : List ATok) (hk : headStop inSub k) (tps : List TokPos) (fuel : Nat)
     (hf : fuel ≥ tps.length + 2) (hm : toksMatch (args.map ATok.word ++ k) tps) :
     ∃ s tps', firstCmdF fuel inSub pos neg ⟨tps⟩ = .ok (some s, ⟨tps'⟩) ∧
-      s.norm = .mk neg false (.call args) ∧ s.bare = true ∧ toksMatch k tps' ∧ tps'.length < tps.length := by
+      s.norm = .mk neg false (.call args) ∧ s.bare = true ∧ toksMatch k tps' ∧ tps'.length < tps.length ∧
+      (∀ x ∈ tps', x ∈ tps) := by
   cases args with
   | nil => simp [LCmd.valid] at hv
   | cons n ns =>
@@ -247,7 +248,7 @@ theorem firstCmdF_call (args : List (List NPart)) (hv : (LCmd.call args).valid =
     cases fuel with
     | zero => simp at hf
     | succ f =>
-      obtain ⟨ws, tps', h1, h2, h3⟩ := callArgs_ok ns hnsok inSub k hk ts [w] (f + 1)
+      obtain ⟨ws, tps', h1, h2, h3, h3'⟩ := callArgs_ok ns hnsok inSub k hk ts [w] (f + 1)
         (by simp only [List.length_cons] at hf; omega) hmr
       have hlen' := toksMatch_length h3
       have hcall : firstCmdF (f + 1) inSub pos neg ⟨(Tok.word w lit, p) :: ts⟩ =
@@ -264,7 +265,7 @@ theorem firstCmdF_call (args : List (List NPart)) (hv : (LCmd.call args).valid =
             simpa [ncmdNameOK] using hname
           simp only [firstCmdF, PS.tok, PS.next, List.tail_cons, h1, e4]
           simp [e1, e2, e3]
-      refine ⟨_, tps', hcall, ?_, mkStmt_bare _ _ _, h3, ?_⟩
+      refine ⟨_, tps', hcall, ?_, mkStmt_bare _ _ _, h3, ?_, fun x hx => by simp [h3' x hx]⟩
       · rw [mkStmt_norm]
         simp only [Cmd.norm, List.map_cons, h2, Word.norm, normParts_eq, hnorm]
       · simp only [List.length_cons]
@@ -556,5 +557,830 @@ theorem getStmtF_base (s : LStmt) (hv : s.valid = true) (hao : s.cmd.isAndOr = f
         rfl
       · simp only [List.length_cons] at hf h7 ⊢; omega
       · simp only [List.length_cons] at h7 ⊢; omega
+
+
+/-! ## Norm bookkeeping -/
+
+theorem Stmt.norm_setEnd (s : Stmt) (n b : Bool) (c : NCmd) (h : s.norm = .mk n b c) (p : Pos) (bg : Bool) :
+    (s.setEnd p bg).norm = .mk n bg c ∧ (s.setEnd p bg).semi = p := by
+  obtain ⟨a, e, n', b', c'⟩ := s
+  simp only [Stmt.norm, NStmt.mk.injEq] at h
+  obtain ⟨rfl, rfl, rfl⟩ := h
+  simp [Stmt.setEnd, Stmt.norm, Stmt.semi]
+
+theorem Stmt.norm_setNeg (s : Stmt) (n b : Bool) (c : NCmd) (h : s.norm = .mk n b c) (m : Bool) :
+    (s.setNeg m).norm = .mk m b c ∧ s.negated = n ∧ (s.setNeg m).bare = s.bare := by
+  obtain ⟨a, e, n', b', c'⟩ := s
+  simp only [Stmt.norm, NStmt.mk.injEq] at h
+  obtain ⟨rfl, rfl, rfl⟩ := h
+  simp [Stmt.setNeg, Stmt.norm, Stmt.negated, Stmt.bare, Stmt.bg, Stmt.semi]
+
+theorem LStmt.norm_none {s : LStmt} (h : s.term = .none) : s.norm = .mk s.neg false s.cmd.norm := by
+  obtain ⟨n, c, t⟩ := s
+  simp only [LStmt.term] at h
+  subst h
+  simp [LStmt.norm, LStmt.neg, LStmt.cmd]
+
+/-- the first token of a statement body is `!` or a start token: never a newline -/
+theorem LStmt.body_head (s : LStmt) (hv : s.valid = true) (hao : s.cmd.isAndOr = false) :
+    ∃ a rest, s.bodyToks = a :: rest ∧ (a = .bang ∨ startTok a = true) := by
+  obtain ⟨n, c, t⟩ := s
+  simp only [LStmt.cmd] at hao
+  have hcv : c.valid = true := by
+    simp only [LStmt.valid, Bool.and_eq_true] at hv
+    exact hv.1
+  cases n with
+  | true => exact ⟨.bang, c.toks, by simp [LStmt.bodyToks], Or.inl rfl⟩
+  | false =>
+    obtain ⟨a, rest, h1, h2⟩ := LCmd.start c hcv hao
+    exact ⟨a, rest, by simp [LStmt.bodyToks, h1], Or.inr h2⟩
+
+theorem not_newl_of_head {a : ATok} {t : Tok} (ha : a = .bang ∨ startTok a = true) (hm : tokMatch a t) :
+    (t == Tok.newl) = false := by
+  rcases ha with rfl | ha
+  · obtain ⟨w, rfl⟩ := hm; rfl
+  · exact (startTok_match ha hm).2.2.2.1
+
+/-- `gotNewl` on a token list that starts with an optional newline token followed by a token
+    that is not a newline -/
+theorem gotNewl_nlT (nl : Bool) (rest : List ATok) (tps : List TokPos) (hm : toksMatch (nlT nl ++ rest) tps)
+    (hhead : ∀ a r t p ts, rest = a :: r → tps = (t, p) :: ts → nl = false → (t == Tok.newl) = false) :
+    ∃ tps', (PS.mk tps).gotNewl = (nl, ⟨tps'⟩) ∧ toksMatch rest tps' ∧ tps'.length + (if nl then 1 else 0) = tps.length := by
+  cases nl with
+  | true =>
+    simp only [nlT, ↓reduceIte, List.singleton_append] at hm
+    obtain ⟨t, p, ts, rfl, hma, hmr⟩ := toksMatch_cons hm
+    simp only [tokMatch] at hma
+    subst hma
+    exact ⟨ts, by simp [PS.gotNewl, PS.tok, PS.next], hmr, by simp⟩
+  | false =>
+    simp only [nlT, Bool.false_eq_true, ↓reduceIte, List.nil_append] at hm
+    refine ⟨tps, ?_, hm, by simp⟩
+    cases rest with
+    | nil =>
+      have := toksMatch_nil_left hm
+      subst this
+      simp [PS.gotNewl, PS.tok]
+    | cons a r =>
+      obtain ⟨t, p, ts, rfl, _, _⟩ := toksMatch_cons hm
+      have := hhead a r t p ts rfl rfl rfl
+      simp [PS.gotNewl, PS.tok, this]
+
+
+/-! ## The loop steps -/
+
+theorem andOrF_eq (fuel : Nat) (inSub binCmd : Bool) (s : Stmt) (ps : PS) :
+    andOrF (fuel + 1) inSub binCmd s ps =
+      (let op? : Option BinOp := match ps.tok with
+         | .andAnd => some .andStmt
+         | .orOr => some .orStmt
+         | _ => none
+       match op? with
+       | none => .ok (s, ps)
+       | some op =>
+         if binCmd then .ok (s, ps)
+         else
+           let opPos := ps.pos
+           let ps := ps.next
+           let ps := ps.gotNewl.2
+           match getStmtF fuel inSub false true ps with
+           | .error e => .error e
+           | .ok (none, ps') =>
+             match ps'.tok with
+             | .outside => .error .outside
+             | _ => .error (.syntax "must be followed by a statement")
+           | .ok (some y, ps') =>
+             andOrF fuel inSub binCmd (mkStmt s.pos false (.binary opPos op s y)) ps') := by
+  rw [andOrF]
+  rfl
+
+/-- `x && y` / `x || y`: after the left operand the loop reads the operator and the right operand -/
+theorem claimS_andor (op : BinOp) (hop : op ≠ .pipe) (nl : Bool) (x y : LStmt) (term : Term)
+    (hxt : x.term = .none) (hyt : y.term = .none) (hyv : y.valid = true) (hyao : y.cmd.isAndOr = false)
+    (hSx : ClaimS x) (hYy : ClaimY y) : ClaimS (.mk false (.binary op nl x y) term) := by
+  intro inSub readEnd k tps fuel hk hm hpv hf
+  simp only [LStmt.cmd, LCmd.endsInWord] at hk
+  have hyew : y.endsInWord = y.cmd.endsInWord := by
+    obtain ⟨n, c, t⟩ := y
+    simp only [LStmt.term] at hyt
+    subst hyt
+    simp [LStmt.endsInWord, LStmt.cmd]
+  rw [hyew] at hk
+  have htoks : (LStmt.mk false (.binary op nl x y) term).bodyToks ++ k =
+      x.bodyToks ++ (opA op :: (nlT nl ++ (y.bodyToks ++ k))) := by
+    simp [LStmt.bodyToks, LCmd.toks, LStmt.toks_none hxt, LStmt.toks_none hyt]
+  rw [htoks] at hm
+  have hk1 : headFollowNP inSub x.cmd.endsInWord (opA op :: (nlT nl ++ (y.bodyToks ++ k))) := by
+    refine ⟨opA op, _, rfl, ?_, ?_⟩
+    · cases op <;> simp [opA, followTok, stopA]
+    · cases op with
+      | pipe => exact absurd rfl hop
+      | andStmt => rfl
+      | orStmt => rfl
+  obtain ⟨sx, tps1, f1, h1, h2, h3, h4, h5, h6, h7⟩ := hSx inSub readEnd _ tps fuel hk1 hm hpv hf
+  obtain ⟨top, pop, ts1, rfl, hmop, hmr⟩ := toksMatch_cons h2
+  obtain ⟨ay, ry, hyb, hyh⟩ := LStmt.body_head y hyv hyao
+  obtain ⟨tps2, hg, hm2, hl2⟩ := gotNewl_nlT nl (y.bodyToks ++ k) ts1 hmr (by
+    intro a r t p ts hr htp _
+    rw [hyb, List.cons_append] at hr
+    simp only [List.cons.injEq] at hr
+    obtain ⟨rfl, _⟩ := hr
+    subst htp
+    rw [hyb, List.cons_append] at hmr
+    cases nl with
+    | true => rename_i hnl; cases hnl
+    | false =>
+      simp only [nlT, Bool.false_eq_true, ↓reduceIte, List.nil_append] at hmr
+      exact not_newl_of_head hyh hmr.1)
+  have hpv1 : posValid ts1 := posValid_tail h3
+  have hpv2 : posValid tps2 := by
+    cases nl with
+    | false =>
+      simp only [PS.gotNewl] at hg
+      split at hg
+      · simp at hg
+      · simp only [Prod.mk.injEq, PS.mk.injEq, true_and] at hg
+        subst hg
+        exact hpv1
+    | true =>
+      simp only [nlT, ↓reduceIte, List.singleton_append] at hmr
+      obtain ⟨t, p, ts, rfl, hma, _⟩ := toksMatch_cons hmr
+      simp only [tokMatch] at hma
+      subst hma
+      simp only [PS.gotNewl, PS.tok, beq_self_eq_true, ↓reduceIte, PS.next, List.tail_cons, Prod.mk.injEq,
+        PS.mk.injEq, true_and] at hg
+      subst hg
+      exact posValid_tail hpv1
+  cases f1 with
+  | zero => omega
+  | succ g =>
+    obtain ⟨sy, tpsk, hy1, hy2, hy3, hy4, hy5, hy6⟩ := hYy hyao inSub k tps2 g hk hm2 hpv2 (by
+      simp only [List.length_cons] at h6
+      have : tps2.length ≤ ts1.length := by
+        cases nl <;> simp at hl2 <;> omega
+      omega)
+    refine ⟨mkStmt sx.pos false (.binary pop op sx sy), tpsk, g, ?_, hy2, hy3, ?_, mkStmt_bare _ _ _, ?_, ?_⟩
+    · rw [h1, andOrF_eq]
+      simp only [PS.tok, Bool.false_eq_true, ↓reduceIte, PS.pos, PS.next, List.tail_cons]
+      rw [hg]
+      simp only [hy1]
+      cases op with
+      | pipe => exact absurd rfl hop
+      | andStmt => simp only [opA, tokMatch] at hmop; subst hmop; rfl
+      | orStmt => simp only [opA, tokMatch] at hmop; subst hmop; rfl
+    · rw [mkStmt_norm]
+      simp only [Cmd.norm, h4, hy4, LStmt.neg, LStmt.cmd, LCmd.norm, LStmt.norm_none hxt, LStmt.norm_none hyt]
+    · have : tpsk.length < tps2.length := hy6
+      have : tps2.length ≤ ts1.length := by
+        cases nl <;> simp at hl2 <;> omega
+      simp only [List.length_cons] at h6
+      omega
+    · have : tps2.length ≤ ts1.length := by
+        cases nl <;> simp at hl2 <;> omega
+      simp only [List.length_cons] at h7
+      omega
+
+
+theorem PS.pos_cons (t : Tok) (p : Pos) (ts : List TokPos) : (PS.mk ((t, p) :: ts)).pos = p := rfl
+theorem PS.tok_cons (t : Tok) (p : Pos) (ts : List TokPos) : (PS.mk ((t, p) :: ts)).tok = t := rfl
+theorem PS.next_cons (t : Tok) (p : Pos) (ts : List TokPos) : (PS.mk ((t, p) :: ts)).next = ⟨ts⟩ := rfl
+
+theorem pipeF_eq (fuel : Nat) (inSub binCmd : Bool) (s : Stmt) (ps : PS) :
+    pipeF (fuel + 1) inSub binCmd s ps =
+      (if ps.tok == .pipe then
+         if binCmd then .ok (s, ps)
+         else
+           let opPos := ps.pos
+           let ps := ps.next
+           let ps := ps.gotNewl.2
+           match gotStmtPipeF fuel inSub ps.pos false true ps with
+           | .error e => .error e
+           | .ok (none, ps') =>
+             match ps'.tok with
+             | .outside => .error .outside
+             | _ => .error (.syntax "must be followed by a statement")
+           | .ok (some y, ps') =>
+             pipeF fuel inSub binCmd (mkStmt s.pos s.negated (.binary opPos .pipe (s.setNeg false) y)) ps'
+       else .ok (s, ps)) := by
+  rw [pipeF]
+  rfl
+
+theorem gotNewl_posValid {tps tps' : List TokPos} {b : Bool} (h : (PS.mk tps).gotNewl = (b, ⟨tps'⟩))
+    (hpv : posValid tps) : posValid tps' := by
+  simp only [PS.gotNewl] at h
+  split at h
+  · simp only [PS.next, Prod.mk.injEq, PS.mk.injEq] at h
+    obtain ⟨_, rfl⟩ := h
+    intro x hx
+    exact hpv x (List.mem_of_mem_tail hx)
+  · simp only [Prod.mk.injEq, PS.mk.injEq] at h
+    obtain ⟨_, rfl⟩ := h
+    exact hpv
+
+/-- `x | y`: after the left operand the loop reads `|` and one more command -/
+theorem claimC_pipe (nl : Bool) (x y : LStmt) (hxt : x.term = .none) (hyt : y.term = .none)
+    (hxn : x.neg = false) (hyn : y.neg = false) (hyv : y.cmd.valid = true) (hynb : y.cmd.isBinary = false)
+    (hCx : ClaimC x.cmd) (hFy : ClaimF y.cmd) : ClaimC (.binary .pipe nl x y) := by
+  intro inSub pos neg k tps fuel hk hm hpv hf
+  obtain ⟨xn, xc, xt⟩ := x
+  obtain ⟨yn, yc, yt⟩ := y
+  simp only [LStmt.term, LStmt.neg, LStmt.cmd] at *
+  subst hxt hyt hxn hyn
+  have hyao : yc.isAndOr = false := by
+    cases yc with
+    | binary op _ _ _ => simp [LCmd.isBinary] at hynb
+    | _ => rfl
+  simp only [LCmd.endsInWord, LStmt.endsInWord, beq_self_eq_true, Bool.true_and] at hk
+  have htoks : (LCmd.binary .pipe nl (.mk false xc .none) (.mk false yc .none)).toks ++ k =
+      xc.toks ++ (ATok.pipe :: (nlT nl ++ (yc.toks ++ k))) := by
+    simp [LCmd.toks, LStmt.toks, Term.toks, opA]
+  rw [htoks] at hm
+  have hk1 : headFollow inSub xc.endsInWord (ATok.pipe :: (nlT nl ++ (yc.toks ++ k))) :=
+    ⟨.pipe, _, rfl, by simp [followTok, stopA]⟩
+  obtain ⟨sx, tps1, f1, h1, h2, h3, h4, h5, h6, h7⟩ := hCx inSub pos neg _ tps fuel hk1 hm hpv hf
+  obtain ⟨tp, pp, ts1, rfl, hmp, hmr⟩ := toksMatch_cons h2
+  simp only [tokMatch] at hmp
+  subst hmp
+  obtain ⟨ay, ry, hyb, hyh⟩ := LCmd.start yc hyv hyao
+  obtain ⟨tps2, hg, hm2, hl2⟩ := gotNewl_nlT nl (yc.toks ++ k) ts1 hmr (by
+    intro a r t p ts hr htp hnl
+    subst hnl htp
+    rw [hyb, List.cons_append] at hr hmr
+    simp only [List.cons.injEq] at hr
+    obtain ⟨rfl, _⟩ := hr
+    simp only [nlT, Bool.false_eq_true, ↓reduceIte, List.nil_append] at hmr
+    exact (startTok_match hyh hmr.1).2.2.2.1)
+  have hpv2 : posValid tps2 := gotNewl_posValid hg (posValid_tail h3)
+  have hlen2 : tps2.length ≤ ts1.length := by
+    cases nl <;> simp at hl2 <;> omega
+  cases f1 with
+  | zero => omega
+  | succ g =>
+    cases g with
+    | zero => simp only [List.length_cons] at h6; omega
+    | succ h =>
+      obtain ⟨sy, tpsk, hy1, hy2, hy3, hy4, hy5, hy6⟩ := hFy inSub (PS.mk tps2).pos false k tps2 h hk hm2 hpv2 (by
+        simp only [List.length_cons] at h6
+        omega)
+      obtain ⟨hn1, hn2, hn3⟩ := Stmt.norm_setNeg sx _ _ _ h4 false
+      refine ⟨mkStmt sx.pos sx.negated (.binary pp .pipe (sx.setNeg false) sy), tpsk, h + 1, ?_, hy2, hy3, ?_,
+        mkStmt_bare _ _ _, ?_, ?_⟩
+      · rw [h1, pipeF_eq]
+        simp only [PS.tok_cons, PS.pos_cons, PS.next_cons, beq_self_eq_true, ↓reduceIte, Bool.false_eq_true]
+        rw [hg]
+        simp only []
+        rw [gotStmtPipeF_eq, hy1]
+        simp only [pipeWrap]
+        cases h with
+        | zero => simp only [List.length_cons] at h6; omega
+        | succ h' => rw [pipeF_binCmd]
+      · rw [mkStmt_norm]
+        simp only [Cmd.norm, hn1, hn2, hy4, LCmd.norm, LStmt.norm]
+        simp
+      · simp only [List.length_cons] at h6
+        omega
+      · simp only [List.length_cons] at h7
+        omega
+
+
+/-! ## Statement lists -/
+
+theorem stmtsF_eq (fuel : Nat) (inSub stopBrace gotEnd : Bool) (ps : PS) (acc : List Stmt) :
+    stmtsF (fuel + 1) inSub stopBrace gotEnd ps acc =
+      (if ps.tok == .eof then .ok (acc.reverse, ps)
+       else
+         let (newLine, ps) := ps.gotNewl
+         if ps.tok.isLit [125] then
+           if stopBrace then .ok (acc.reverse, ps)
+           else .error (.syntax "`}` can only be used to close a block")
+         else if ps.tok == .rparen && inSub then .ok (acc.reverse, ps)
+         else if !newLine && !gotEnd then .error (.syntax "statements must be separated by &, ; or a newline")
+         else if ps.tok == .eof then .ok (acc.reverse, ps)
+         else
+           match getStmtF fuel inSub true false ps with
+           | .error e => .error e
+           | .ok (none, ps') =>
+             match ps'.tok with
+             | .outside => .error .outside
+             | .unclosedQuote => .error (.syntax "reached EOF without closing quote '")
+             | _ => .error (.syntax "not a valid start for a statement")
+           | .ok (some s, ps') => stmtsF fuel inSub stopBrace s.semi.valid ps' (s :: acc)) := by
+  rw [stmtsF]
+  rfl
+
+/-- at the closing token (after an optional newline) the loop ends -/
+theorem stmtsF_close (fuel : Nat) (inSub stopBrace gotEnd nl cl : Bool) (a : ATok) (k : List ATok)
+    (tps : List TokPos) (acc : List Stmt) (hc : closerOK inSub stopBrace cl a = true)
+    (hm : toksMatch (nlT nl ++ a :: k) tps) :
+    ∃ tps', stmtsF (fuel + 1) inSub stopBrace gotEnd ⟨tps⟩ acc = .ok (acc.reverse, ⟨tps'⟩) ∧
+      toksMatch (a :: k) tps' ∧ tps'.length ≤ tps.length ∧ (∀ x ∈ tps', x ∈ tps) := by
+  have closeAt : ∀ (newLine : Bool) (t : Tok) (p : Pos) (ts : List TokPos), tokMatch a t →
+      (if t.isLit [125] then
+          if stopBrace then (Except.ok (acc.reverse, PS.mk ((t, p) :: ts)) : Except ParseErr (List Stmt × PS))
+          else .error (.syntax "`}` can only be used to close a block")
+        else if t == .rparen && inSub then .ok (acc.reverse, ⟨(t, p) :: ts⟩)
+        else if !newLine && !gotEnd then .error (.syntax "statements must be separated by &, ; or a newline")
+        else if t == .eof then .ok (acc.reverse, ⟨(t, p) :: ts⟩)
+        else
+          match getStmtF fuel inSub true false ⟨(t, p) :: ts⟩ with
+          | .error e => .error e
+          | .ok (none, ps') =>
+            match ps'.tok with
+            | .outside => .error .outside
+            | .unclosedQuote => .error (.syntax "reached EOF without closing quote '")
+            | _ => .error (.syntax "not a valid start for a statement")
+          | .ok (some s, ps') => stmtsF fuel inSub stopBrace s.semi.valid ps' (s :: acc)) =
+        .ok (acc.reverse, ⟨(t, p) :: ts⟩) ∨ (a = .eof ∧ newLine = false) := by
+    intro newLine t p ts hma
+    simp only [closerOK, Bool.or_eq_true, Bool.and_eq_true, beq_iff_eq] at hc
+    rcases hc with (rfl | ⟨rfl, hin⟩) | ⟨⟨rfl, hsb⟩, _⟩
+    · simp only [tokMatch] at hma
+      subst hma
+      cases newLine with
+      | false => exact Or.inr ⟨rfl, rfl⟩
+      | true => left; simp [Tok.isLit]
+    · simp only [tokMatch] at hma
+      subst hma
+      left; simp [Tok.isLit, hin]
+    · obtain ⟨w, rfl⟩ := hma
+      left; simp [Tok.isLit, hsb]
+  cases nl with
+  | false =>
+    simp only [nlT, Bool.false_eq_true, ↓reduceIte, List.nil_append] at hm
+    obtain ⟨t, p, ts, rfl, hma, hmr⟩ := toksMatch_cons hm
+    refine ⟨(t, p) :: ts, ?_, ⟨hma, hmr⟩, Nat.le_refl _, fun x hx => hx⟩
+    rw [stmtsF_eq]
+    by_cases heof : a = .eof
+    · subst heof
+      simp only [tokMatch] at hma
+      subst hma
+      simp [PS.tok_cons]
+    · have hne : (t == Tok.eof) = false := by
+        cases a <;> simp only [tokMatch] at hma <;> first | (subst hma; rfl) | exact absurd rfl heof | skip
+        all_goals (obtain ⟨w, rest⟩ := hma; first | (obtain ⟨lit, rfl, _⟩ := rest; rfl) | (subst rest; rfl))
+      have hnl : (t == Tok.newl) = false := by
+        simp only [closerOK, Bool.or_eq_true, Bool.and_eq_true, beq_iff_eq] at hc
+        rcases hc with (rfl | ⟨rfl, _⟩) | ⟨⟨rfl, _⟩, _⟩
+        · exact absurd rfl heof
+        · simp only [tokMatch] at hma; subst hma; rfl
+        · obtain ⟨w, rfl⟩ := hma; rfl
+      simp only [PS.tok_cons, hne, Bool.false_eq_true, ↓reduceIte, PS.gotNewl, hnl]
+      rcases closeAt false t p ts hma with h | ⟨h, _⟩
+      · simp only [hne, Bool.false_eq_true, ↓reduceIte] at h
+        simpa [PS.tok_cons] using h
+      · exact absurd h heof
+  | true =>
+    simp only [nlT, ↓reduceIte, List.singleton_append] at hm
+    obtain ⟨tn, pn, ts0, rfl, hmn, hm0⟩ := toksMatch_cons hm
+    simp only [tokMatch] at hmn
+    subst hmn
+    obtain ⟨t, p, ts, rfl, hma, hmr⟩ := toksMatch_cons hm0
+    refine ⟨(t, p) :: ts, ?_, ⟨hma, hmr⟩, by simp, fun x hx => by simp [hx]⟩
+    rw [stmtsF_eq]
+    simp only [PS.tok_cons, PS.gotNewl, PS.next_cons, beq_self_eq_true, ↓reduceIte]
+    have : (Tok.newl == Tok.eof) = false := rfl
+    simp only [this, Bool.false_eq_true, ↓reduceIte]
+    rcases closeAt true t p ts hma with h | ⟨_, h⟩
+    · simpa [PS.tok_cons] using h
+    · cases h
+
+
+theorem tokMatch_not_semi_amp {a : ATok} {t : Tok} (hm : tokMatch a t) (h1 : a ≠ .semi) (h2 : a ≠ .amp) :
+    t ≠ .semi ∧ t ≠ .amp := by
+  cases a <;> simp only [tokMatch] at hm <;> first
+    | exact absurd rfl h1
+    | exact absurd rfl h2
+    | (subst hm; exact ⟨by simp, by simp⟩)
+    | (obtain ⟨w, rest⟩ := hm; first | (obtain ⟨lit, rfl, _⟩ := rest; exact ⟨by simp, by simp⟩) | (subst rest; exact ⟨by simp, by simp⟩))
+
+/-- a whole statement with its terminator, as read by the statement loop (`readEnd = true`) -/
+theorem getStmt_full (s : LStmt) (hS : ClaimS s) (inSub : Bool) (k : List ATok) (tps : List TokPos) (fuel : Nat)
+    (hk : ∃ a rest, k = a :: rest ∧ a.notAndOr = true ∧ a.notPipe = true ∧ a ≠ .semi ∧ a ≠ .amp ∧
+      (s.term = .none → followTok inSub s.cmd.endsInWord a = true))
+    (hm : toksMatch (s.toks ++ k) tps) (hpv : posValid tps) (hf : fuel ≥ 6 * tps.length + 5) :
+    ∃ s' tps', getStmtF fuel inSub true false ⟨tps⟩ = .ok (some s', ⟨tps'⟩) ∧ toksMatch k tps' ∧ posValid tps' ∧
+      s'.norm = s.norm ∧ s'.semi.valid = (s.term != .none) ∧ tps'.length < tps.length := by
+  obtain ⟨a, rest, rfl, hnao, hnp, hns, hna, hfol⟩ := hk
+  rw [LStmt.toks_eq, List.append_assoc] at hm
+  have hk1 : headFollowNP inSub s.cmd.endsInWord (s.term.toks ++ a :: rest) := by
+    cases hterm : s.term with
+    | none => exact ⟨a, rest, by simp [Term.toks], hfol hterm, hnp⟩
+    | semi => exact ⟨.semi, a :: rest, by simp [Term.toks], by simp [followTok, stopA], rfl⟩
+    | amp => exact ⟨.amp, a :: rest, by simp [Term.toks], by simp [followTok, stopA], rfl⟩
+  obtain ⟨s1, tps1, f1, h1, h2, h3, h4, h5, h6, h7⟩ := hS inSub true _ tps fuel hk1 hm hpv hf
+  obtain ⟨n, c, term⟩ := s
+  simp only [LStmt.term, LStmt.neg, LStmt.cmd] at *
+  cases f1 with
+  | zero => omega
+  | succ g =>
+    cases term with
+    | none =>
+      simp only [Term.toks, List.nil_append] at h2
+      obtain ⟨t1, p1, ts1, rfl, hma, hmr⟩ := toksMatch_cons h2
+      obtain ⟨e1, e2⟩ := tokMatch_not_semi_amp hma hns hna
+      refine ⟨s1, (t1, p1) :: ts1, ?_, ⟨hma, hmr⟩, h3, ?_, ?_, h7⟩
+      · rw [h1, andOrF_stop g inSub false s1 a t1 p1 ts1 hma hnao]
+        simp only [endWrap, ↓reduceIte, PS.tok_cons]
+        try (cases t1 <;> first | rfl | exact absurd rfl e1 | exact absurd rfl e2)
+      · simp [h4, LStmt.norm]
+      · simp only [Stmt.bare, Bool.and_eq_true, Bool.not_eq_true'] at h5
+        simp [h5.2]
+    | semi =>
+      simp only [Term.toks, List.singleton_append] at h2
+      obtain ⟨t1, p1, ts1, rfl, hma, hmr⟩ := toksMatch_cons h2
+      simp only [tokMatch] at hma
+      subst hma
+      obtain ⟨hn1, hn2⟩ := Stmt.norm_setEnd s1 _ _ _ h4 p1 false
+      refine ⟨s1.setEnd p1 false, ts1, ?_, hmr, posValid_tail h3, ?_, ?_, ?_⟩
+      · rw [h1, andOrF_stop g inSub false s1 .semi .semi p1 ts1 rfl rfl]
+        simp [endWrap, PS.tok_cons, PS.pos_cons, PS.next_cons]
+      · simp [hn1, LStmt.norm]
+      · rw [hn2, h3 (Tok.semi, p1) (by simp)]
+        rfl
+      · simp only [List.length_cons] at h7; omega
+    | amp =>
+      simp only [Term.toks, List.singleton_append] at h2
+      obtain ⟨t1, p1, ts1, rfl, hma, hmr⟩ := toksMatch_cons h2
+      simp only [tokMatch] at hma
+      subst hma
+      obtain ⟨hn1, hn2⟩ := Stmt.norm_setEnd s1 _ _ _ h4 p1 true
+      refine ⟨s1.setEnd p1 true, ts1, ?_, hmr, posValid_tail h3, ?_, ?_, ?_⟩
+      · rw [h1, andOrF_stop g inSub false s1 .amp .amp p1 ts1 rfl rfl]
+        simp [endWrap, PS.tok_cons, PS.pos_cons, PS.next_cons]
+      · simp [hn1, LStmt.norm]
+      · rw [hn2, h3 (Tok.amp, p1) (by simp)]
+        rfl
+      · simp only [List.length_cons] at h7; omega
+
+
+mutual
+/-- the first token of a valid statement body is `!` or a start token -/
+theorem LStmt.head_gen : ∀ (s : LStmt), s.valid = true → ∃ a rest, s.bodyToks = a :: rest ∧ (a = .bang ∨ startTok a = true)
+  | .mk neg cmd term, hv => by
+    have hcv : cmd.valid = true := by
+      simp only [LStmt.valid, Bool.and_eq_true] at hv
+      exact hv.1
+    cases neg with
+    | true => exact ⟨.bang, cmd.toks, by simp [LStmt.bodyToks], Or.inl rfl⟩
+    | false =>
+      obtain ⟨a, rest, h1, h2⟩ := LCmd.head_gen cmd hcv
+      exact ⟨a, rest, by simp [LStmt.bodyToks, h1], h2⟩
+theorem LCmd.head_gen : ∀ (c : LCmd), c.valid = true → ∃ a rest, c.toks = a :: rest ∧ (a = .bang ∨ startTok a = true)
+  | .call args, hv => by
+    obtain ⟨a, rest, h1, h2⟩ := LCmd.start (.call args) hv rfl
+    exact ⟨a, rest, h1, Or.inr h2⟩
+  | .subshell nl ss, _ => ⟨.lparen, nlT nl ++ (ss.toks ++ [.rparen]), by simp [LCmd.toks], Or.inr rfl⟩
+  | .block nl ss, _ => ⟨.lbrace, nlT nl ++ (ss.toks ++ [.rbrace]), by simp [LCmd.toks], Or.inr rfl⟩
+  | .binary op nl x y, hv => by
+    simp only [LCmd.valid, Bool.and_eq_true, beq_iff_eq] at hv
+    obtain ⟨⟨⟨⟨hx, _⟩, hxt⟩, _⟩, _⟩ := hv
+    obtain ⟨a, rest, h1, h2⟩ := LStmt.head_gen x hx
+    exact ⟨a, rest ++ (opA op :: (nlT nl ++ y.toks)), by simp [LCmd.toks, LStmt.toks_none hxt, h1], h2⟩
+end
+
+theorem head_tok_facts {a : ATok} {t : Tok} (ha : a = .bang ∨ startTok a = true) (hm : tokMatch a t) :
+    (t == Tok.eof) = false ∧ (t == Tok.newl) = false ∧ t.isLit [125] = false ∧ (t == Tok.rparen) = false := by
+  rcases ha with rfl | ha
+  · obtain ⟨w, rfl⟩ := hm
+    exact ⟨rfl, rfl, by simp [Tok.isLit], rfl⟩
+  · obtain ⟨_, _, e3, e4, _, e6, e7⟩ := startTok_match ha hm
+    exact ⟨e3, e4, e6, e7⟩
+
+theorem head_atok_facts {a : ATok} (ha : a = .bang ∨ startTok a = true) :
+    a.notAndOr = true ∧ a.notPipe = true ∧ a ≠ .semi ∧ a ≠ .amp := by
+  rcases ha with rfl | ha
+  · exact ⟨rfl, rfl, by simp, by simp⟩
+  · cases a <;> simp [startTok] at ha <;> exact ⟨rfl, rfl, by simp, by simp⟩
+
+/-- one iteration of the statement loop -/
+theorem stmtsF_step (s : LStmt) (hv : s.valid = true) (hS : ClaimS s) (inSub stopBrace gotEnd nl0 : Bool)
+    (k2 : List ATok) (tps : List TokPos) (acc : List Stmt) (f : Nat)
+    (hsep : gotEnd = true ∨ nl0 = true)
+    (hk : ∃ a rest, k2 = a :: rest ∧ a.notAndOr = true ∧ a.notPipe = true ∧ a ≠ .semi ∧ a ≠ .amp ∧
+      (s.term = .none → followTok inSub s.cmd.endsInWord a = true))
+    (hm : toksMatch (nlT nl0 ++ (s.toks ++ k2)) tps) (hpv : posValid tps) (hf : f + 1 ≥ 6 * tps.length + 6) :
+    ∃ s' tps', stmtsF (f + 1) inSub stopBrace gotEnd ⟨tps⟩ acc =
+        stmtsF f inSub stopBrace (s.term != .none) ⟨tps'⟩ (s' :: acc) ∧
+      toksMatch k2 tps' ∧ posValid tps' ∧ s'.norm = s.norm ∧ tps'.length < tps.length := by
+  obtain ⟨a0, r0, hb, ha0⟩ := LStmt.head_gen s hv
+  have hhead : ∀ a r t p ts, s.toks ++ k2 = a :: r → tps = (t, p) :: ts → nl0 = false → (t == Tok.newl) = false := by
+    intro a r t p ts hr htp hnl
+    subst hnl htp
+    rw [LStmt.toks_eq, hb] at hr hm
+    simp only [List.cons_append, List.cons.injEq] at hr
+    obtain ⟨rfl, _⟩ := hr
+    simp only [nlT, Bool.false_eq_true, ↓reduceIte, List.nil_append, List.cons_append] at hm
+    exact (head_tok_facts ha0 hm.1).2.1
+  obtain ⟨tps1, hg, hm1, hl1⟩ := gotNewl_nlT nl0 (s.toks ++ k2) tps hm hhead
+  have hpv1 : posValid tps1 := gotNewl_posValid hg hpv
+  have hlen1 : tps1.length ≤ tps.length := by cases nl0 <;> simp at hl1 <;> omega
+  obtain ⟨s', tps', h1, h2, h3, h4, h5, h6⟩ := getStmt_full s hS inSub k2 tps1 f hk hm1 hpv1 (by omega)
+  refine ⟨s', tps', ?_, h2, h3, h4, by omega⟩
+  -- the first token of the statement
+  have hm1' := hm1
+  rw [LStmt.toks_eq, hb] at hm1'
+  simp only [List.cons_append] at hm1'
+  obtain ⟨t, p, ts, rfl, hma, _⟩ := toksMatch_cons hm1'
+  obtain ⟨e1, e2, e3, e4⟩ := head_tok_facts ha0 hma
+  have hfirst : ((PS.mk tps).tok == Tok.eof) = false := by
+    cases nl0 with
+    | true =>
+      simp only [nlT, ↓reduceIte, List.singleton_append] at hm
+      obtain ⟨tn, pn, ts0, rfl, hmn, _⟩ := toksMatch_cons hm
+      simp only [tokMatch] at hmn
+      subst hmn
+      rfl
+    | false =>
+      simp only [PS.gotNewl] at hg
+      split at hg
+      · simp at hg
+      · simp only [Prod.mk.injEq, PS.mk.injEq, true_and] at hg
+        subst hg
+        exact e1
+  rw [stmtsF_eq]
+  simp only [hfirst, Bool.false_eq_true, ↓reduceIte, hg, PS.tok_cons, e3, e4, Bool.false_and, e1]
+  have hsep' : (!nl0 && !gotEnd) = false := by
+    rcases hsep with h | h <;> simp [h]
+  simp only [hsep', Bool.false_eq_true, ↓reduceIte, h1, h5]
+
+
+theorem closer_facts {inSub stopBrace cl : Bool} {a : ATok} (h : closerOK inSub stopBrace cl a = true) :
+    a.notAndOr = true ∧ a.notPipe = true ∧ a ≠ .semi ∧ a ≠ .amp ∧
+    (a = .eof ∨ (a = .rparen ∧ inSub = true) ∨ (a = .rbrace ∧ stopBrace = true ∧ cl = true)) := by
+  simp only [closerOK, Bool.or_eq_true, Bool.and_eq_true, beq_iff_eq] at h
+  rcases h with (rfl | ⟨rfl, h⟩) | ⟨⟨rfl, h1⟩, h2⟩
+  · exact ⟨rfl, rfl, by simp, by simp, Or.inl rfl⟩
+  · exact ⟨rfl, rfl, by simp, by simp, Or.inr (Or.inl ⟨rfl, h⟩)⟩
+  · exact ⟨rfl, rfl, by simp, by simp, Or.inr (Or.inr ⟨rfl, h1, h2⟩)⟩
+
+theorem claimL_one (s : LStmt) (nl : Bool) (hv : s.valid = true) (hS : ClaimS s) : ClaimL (.one s nl) := by
+  intro inSub stopBrace gotEnd nl0 a k tps acc fuel hsep hc hm hpv hf
+  obtain ⟨c1, c2, c3, c4, c5⟩ := closer_facts hc
+  cases fuel with
+  | zero => omega
+  | succ f =>
+    have hm' : toksMatch (nlT nl0 ++ (s.toks ++ (nlT nl ++ a :: k))) tps := by
+      simpa [LStmts.toks, List.append_assoc] using hm
+    have hk : ∃ a' rest, nlT nl ++ a :: k = a' :: rest ∧ a'.notAndOr = true ∧ a'.notPipe = true ∧ a' ≠ .semi ∧
+        a' ≠ .amp ∧ (s.term = .none → followTok inSub s.cmd.endsInWord a' = true) := by
+      cases nl with
+      | true => exact ⟨.newl, a :: k, by simp [nlT], rfl, rfl, by simp, by simp, fun _ => by simp [followTok, stopA]⟩
+      | false =>
+        refine ⟨a, k, by simp [nlT], c1, c2, c3, c4, ?_⟩
+        intro hterm
+        rcases c5 with rfl | ⟨rfl, hin⟩ | ⟨rfl, _, hcl⟩
+        · simp [followTok, stopA]
+        · simp [followTok, stopA, hin]
+        · obtain ⟨n, c, t⟩ := s
+          simp only [LStmt.term] at hterm
+          subst hterm
+          simp only [LStmts.closable, Bool.false_or, LStmt.endsInWord, beq_self_eq_true, Bool.true_and,
+            Bool.not_eq_true'] at hcl
+          simp [followTok, stopA, LStmt.cmd, hcl]
+    obtain ⟨s', tps1, h1, h2, h3, h4, h5⟩ := stmtsF_step s hv hS inSub stopBrace gotEnd nl0 _ tps acc f hsep hk hm' hpv hf
+    cases f with
+    | zero => omega
+    | succ g =>
+      obtain ⟨tps2, h6, h7, h8, h9⟩ := stmtsF_close g inSub stopBrace (s.term != .none) nl _ a k tps1 (s' :: acc) hc h2
+      refine ⟨[s'], tps2, ?_, h7, fun x hx => h3 x (h9 x hx), ?_, by simp, by omega⟩
+      · rw [h1, h6]; simp
+      · simp [normList, LStmts.norm, h4]
+
+theorem claimL_cons (s : LStmt) (nl : Bool) (rest : LStmts) (hv : s.valid = true) (hrv : rest.valid = true)
+    (hnl : (nl || s.term != .none) = true) (hS : ClaimS s) (hL : ClaimL rest) : ClaimL (.cons s nl rest) := by
+  intro inSub stopBrace gotEnd nl0 a k tps acc fuel hsep hc hm hpv hf
+  cases fuel with
+  | zero => omega
+  | succ f =>
+    have hm' : toksMatch (nlT nl0 ++ (s.toks ++ (nlT nl ++ (rest.toks ++ a :: k)))) tps := by
+      simpa [LStmts.toks, List.append_assoc] using hm
+    -- the first token of the rest of the list
+    obtain ⟨ar, rr, hrb, har⟩ : ∃ ar rr, rest.toks = ar :: rr ∧ (ar = .bang ∨ startTok ar = true) := by
+      cases rest with
+      | one s2 nl2 =>
+        simp only [LStmts.valid] at hrv
+        obtain ⟨a2, r2, h1, h2⟩ := LStmt.head_gen s2 hrv
+        exact ⟨a2, r2 ++ s2.term.toks ++ nlT nl2, by simp [LStmts.toks, LStmt.toks_eq, h1], h2⟩
+      | cons s2 nl2 rest2 =>
+        simp only [LStmts.valid, Bool.and_eq_true] at hrv
+        obtain ⟨a2, r2, h1, h2⟩ := LStmt.head_gen s2 hrv.1.1
+        exact ⟨a2, r2 ++ s2.term.toks ++ (nlT nl2 ++ rest2.toks), by simp [LStmts.toks, LStmt.toks_eq, h1], h2⟩
+    obtain ⟨f1, f2, f3, f4⟩ := head_atok_facts har
+    have hk : ∃ a' r', nlT nl ++ (rest.toks ++ a :: k) = a' :: r' ∧ a'.notAndOr = true ∧ a'.notPipe = true ∧
+        a' ≠ .semi ∧ a' ≠ .amp ∧ (s.term = .none → followTok inSub s.cmd.endsInWord a' = true) := by
+      cases nl with
+      | true => exact ⟨.newl, rest.toks ++ a :: k, by simp [nlT], rfl, rfl, by simp, by simp, fun _ => by simp [followTok, stopA]⟩
+      | false =>
+        refine ⟨ar, rr ++ a :: k, by simp [nlT, hrb], f1, f2, f3, f4, ?_⟩
+        intro hterm
+        simp [hterm] at hnl
+    obtain ⟨s', tps1, h1, h2, h3, h4, h5⟩ := stmtsF_step s hv hS inSub stopBrace gotEnd nl0 _ tps acc f hsep hk hm' hpv hf
+    have hsep' : (s.term != .none) = true ∨ nl = true := by
+      simp only [Bool.or_eq_true] at hnl
+      rcases hnl with h | h
+      · exact Or.inr h
+      · exact Or.inl h
+    obtain ⟨ss', tps2, h6, h7, h8, h9, h10, h11⟩ := hL inSub stopBrace (s.term != .none) nl a k tps1 (s' :: acc) f hsep'
+      (by simpa [LStmts.closable] using hc) h2 h3 (by omega)
+    refine ⟨s' :: ss', tps2, ?_, h7, h8, ?_, by simp, by omega⟩
+    · rw [h1, h6]; simp
+    · simp [normList, LStmts.norm, h4, h9]
+
+
+/-! ## Compound commands -/
+
+theorem normList_ofList (ss : List Stmt) : (Stmts.ofList ss).norm = normList ss := by
+  induction ss with
+  | nil => rfl
+  | cons s r ih => simp [Stmts.ofList, Stmts.norm, normList, ih]
+
+theorem LStmts.head_gen (ss : LStmts) (hv : ss.valid = true) :
+    ∃ a rest, ss.toks = a :: rest ∧ (a = .bang ∨ startTok a = true) := by
+  cases ss with
+  | one s2 nl2 =>
+    simp only [LStmts.valid] at hv
+    obtain ⟨a2, r2, h1, h2⟩ := LStmt.head_gen s2 hv
+    exact ⟨a2, r2 ++ s2.term.toks ++ nlT nl2, by simp [LStmts.toks, LStmt.toks_eq, h1], h2⟩
+  | cons s2 nl2 rest2 =>
+    simp only [LStmts.valid, Bool.and_eq_true] at hv
+    obtain ⟨a2, r2, h1, h2⟩ := LStmt.head_gen s2 hv.1.1
+    exact ⟨a2, r2 ++ s2.term.toks ++ (nlT nl2 ++ rest2.toks), by simp [LStmts.toks, LStmt.toks_eq, h1], h2⟩
+
+/-- the token after `(` / `{` is a newline, `!` or a start token: not `;` -/
+theorem open_not_semi (nl : Bool) (ss : LStmts) (hv : ss.valid = true) (more : List ATok) (ts : List TokPos)
+    (hm : toksMatch (nlT nl ++ (ss.toks ++ more)) ts) : ((PS.mk ts).tok == Tok.semi) = false := by
+  cases nl with
+  | true =>
+    simp only [nlT, ↓reduceIte, List.singleton_append] at hm
+    obtain ⟨t, p, ts', rfl, hma, _⟩ := toksMatch_cons hm
+    simp only [tokMatch] at hma
+    subst hma
+    rfl
+  | false =>
+    obtain ⟨a, r, h1, h2⟩ := LStmts.head_gen ss hv
+    simp only [nlT, Bool.false_eq_true, ↓reduceIte, List.nil_append, h1, List.cons_append] at hm
+    obtain ⟨t, p, ts', rfl, hma, _⟩ := toksMatch_cons hm
+    rcases h2 with rfl | h2
+    · obtain ⟨w, rfl⟩ := hma; rfl
+    · exact (startTok_match h2 hma).2.2.2.2.1
+
+theorem claimF_subshell (nl : Bool) (ss : LStmts) (hv : ss.valid = true) (hL : ClaimL ss) :
+    ClaimF (.subshell nl ss) := by
+  intro inSub pos neg k tps fuel _ hm hpv hf
+  have htoks : (LCmd.subshell nl ss).toks ++ k = .lparen :: (nlT nl ++ (ss.toks ++ .rparen :: k)) := by
+    simp [LCmd.toks]
+  rw [htoks] at hm
+  obtain ⟨t0, p0, ts, rfl, hm0, hmr⟩ := toksMatch_cons hm
+  simp only [tokMatch] at hm0
+  subst hm0
+  cases fuel with
+  | zero => omega
+  | succ f =>
+    obtain ⟨ss', tps1, h1, h2, h3, h4, h5, h6⟩ := hL true false true nl .rparen k ts [] f (Or.inl rfl)
+      (by simp [closerOK]) hmr (posValid_tail hpv) (by simp only [List.length_cons] at hf; omega)
+    obtain ⟨tr, pr, tsk, rfl, hmrp, hmk⟩ := toksMatch_cons h2
+    simp only [tokMatch] at hmrp
+    subst hmrp
+    have hne : ss'.isEmpty = false := by
+      cases ss' with
+      | nil => exact absurd rfl h5
+      | cons _ _ => rfl
+    refine ⟨mkStmt pos neg (.subshell p0 pr (Stmts.ofList ss')), tsk, ?_, hmk, posValid_tail h3, ?_,
+      mkStmt_bare _ _ _, ?_⟩
+    · rw [firstCmdF]
+      simp only [PS.tok_cons, PS.pos_cons, PS.next_cons, open_not_semi nl ss hv _ ts hmr, Bool.false_eq_true,
+        ↓reduceIte, h1, List.reverse_nil, List.nil_append, hne]
+    · rw [mkStmt_norm]
+      simp [Cmd.norm, normList_ofList, h4, LCmd.norm]
+    · simp only [List.length_cons] at h6 ⊢
+      omega
+
+theorem claimF_block (nl : Bool) (ss : LStmts) (hv : ss.valid = true) (hcl : ss.closable = true) (hL : ClaimL ss) :
+    ClaimF (.block nl ss) := by
+  intro inSub pos neg k tps fuel _ hm hpv hf
+  have htoks : (LCmd.block nl ss).toks ++ k = .lbrace :: (nlT nl ++ (ss.toks ++ .rbrace :: k)) := by
+    simp [LCmd.toks]
+  rw [htoks] at hm
+  obtain ⟨t0, p0, ts, rfl, hm0, hmr⟩ := toksMatch_cons hm
+  obtain ⟨w0, rfl⟩ := hm0
+  cases fuel with
+  | zero => omega
+  | succ f =>
+    obtain ⟨ss', tps1, h1, h2, h3, h4, h5, h6⟩ := hL inSub true true nl .rbrace k ts [] f (Or.inl rfl)
+      (by simp [closerOK, hcl]) hmr (posValid_tail hpv) (by simp only [List.length_cons] at hf; omega)
+    obtain ⟨tr, pr, tsk, rfl, hmrb, hmk⟩ := toksMatch_cons h2
+    obtain ⟨wr, rfl⟩ := hmrb
+    have hne : ss'.isEmpty = false := by
+      cases ss' with
+      | nil => exact absurd rfl h5
+      | cons _ _ => rfl
+    refine ⟨mkStmt pos neg (.block p0 pr (Stmts.ofList ss')), tsk, ?_, hmk, posValid_tail h3, ?_,
+      mkStmt_bare _ _ _, ?_⟩
+    · rw [firstCmdF]
+      simp only [PS.tok_cons, PS.pos_cons, PS.next_cons, open_not_semi nl ss hv _ ts hmr, Bool.false_eq_true,
+        ↓reduceIte, h1, List.reverse_nil, List.nil_append, hne, beq_self_eq_true, Tok.isLit]
+    · rw [mkStmt_norm]
+      simp [Cmd.norm, normList_ofList, h4, LCmd.norm]
+    · simp only [List.length_cons] at h6 ⊢
+      omega
+
+
+/-! ## The mutual induction -/
+
+theorem claimF_call (args : List (List NPart)) (hv : (LCmd.call args).valid = true) : ClaimF (.call args) := by
+  intro inSub pos neg k tps fuel hk hm hpv hf
+  obtain ⟨a, rest, rfl, hfa⟩ := hk
+  have hstop : stopA inSub a = true := by simpa [followTok, LCmd.endsInWord] using hfa
+  obtain ⟨s, tps', h1, h2, h3, h4, h5, h6⟩ := firstCmdF_call args hv inSub pos neg (a :: rest) ⟨a, rest, rfl, hstop⟩ tps fuel
+    (by omega) (by simpa [LCmd.toks] using hm)
+  exact ⟨s, tps', h1, h4, fun x hx => hpv x (h6 x hx), by simpa [LCmd.norm] using h2, h3, h5⟩
+
+mutual
+theorem B_stmt : ∀ (s : LStmt), s.valid = true → ClaimS s ∧ ClaimY s
+  | .mk neg cmd term, hv => by
+    have hcv : cmd.valid = true := by
+      simp only [LStmt.valid, Bool.and_eq_true] at hv
+      exact hv.1
+    cases hao : cmd.isAndOr with
+    | false =>
+      have hC := (B_cmd cmd hcv).2 hao
+      refine ⟨?_, ?_⟩
+      · intro inSub readEnd k tps fuel hk hm hpv hf
+        exact getStmtF_base (.mk neg cmd term) hv hao hC inSub readEnd false k tps fuel hk hm hpv hf
+      · intro _ inSub k tps fuel hk hm hpv hf
+        obtain ⟨s', tps', f', h1, h2, h3, h4, h5, h6, h7⟩ :=
+          getStmtF_base (.mk neg cmd term) hv hao hC inSub false true k tps fuel hk hm hpv hf
+        refine ⟨s', tps', ?_, h2, h3, h4, h5, h7⟩
+        cases f' with
+        | zero => omega
+        | succ g => rw [h1, andOrF_binCmd]; rfl
+    | true =>
+      cases cmd with
+      | call _ => simp [LCmd.isAndOr] at hao
+      | subshell _ _ => simp [LCmd.isAndOr] at hao
+      | block _ _ => simp [LCmd.isAndOr] at hao
+      | binary op nl x y =>
+        have hop : op ≠ .pipe := by
+          intro h; subst h; simp [LCmd.isAndOr] at hao
+        have hneg : neg = false := by
+          simp only [LStmt.valid, hao, Bool.and_true, Bool.and_eq_true, Bool.not_eq_true'] at hv
+          exact hv.2
+        subst hneg
+        simp only [LCmd.valid, Bool.and_eq_true, beq_iff_eq] at hcv
+        obtain ⟨⟨⟨⟨hx, hy⟩, hxt⟩, hyt⟩, hsh⟩ := hcv
+        have hyao : y.cmd.isAndOr = false := by
+          cases op with
+          | pipe => exact absurd rfl hop
+          | andStmt => simpa using hsh
+          | orStmt => simpa using hsh
+        refine ⟨claimS_andor op hop nl x y term hxt hyt hy hyao (B_stmt x hx).1 (B_stmt y hy).2, ?_⟩
+        intro h
+        simp [LStmt.cmd, hao] at h
+theorem B_cmd : ∀ (c : LCmd), c.valid = true → (c.isBinary = false → ClaimF c) ∧ (c.isAndOr = false → ClaimC c)
+  | .call args, hv => ⟨fun _ => claimF_call args hv, fun _ => claimC_of_F (claimF_call args hv)⟩
+  | .subshell nl ss, hv => by
+    have hsv : ss.valid = true := by simpa [LCmd.valid] using hv
+    have hF := claimF_subshell nl ss hsv (B_stmts ss hsv)
+    exact ⟨fun _ => hF, fun _ => claimC_of_F hF⟩
+  | .block nl ss, hv => by
+    simp only [LCmd.valid, Bool.and_eq_true] at hv
+    have hF := claimF_block nl ss hv.1 hv.2 (B_stmts ss hv.1)
+    exact ⟨fun _ => hF, fun _ => claimC_of_F hF⟩
+  | .binary op nl (.mk xn xc xt) (.mk yn yc yt), hv => by
+    refine ⟨fun h => by simp [LCmd.isBinary] at h, ?_⟩
+    intro hao
+    cases op with
+    | andStmt => simp [LCmd.isAndOr] at hao
+    | orStmt => simp [LCmd.isAndOr] at hao
+    | pipe =>
+      simp only [LCmd.valid, LStmt.valid, LStmt.term, LStmt.neg, LStmt.cmd, Bool.and_eq_true, beq_iff_eq,
+        Bool.not_eq_true'] at hv
+      obtain ⟨⟨⟨⟨⟨hxc, _⟩, ⟨hyc, _⟩⟩, hxt⟩, hyt⟩, ⟨⟨⟨hxn, hyn⟩, hxao⟩, hynb⟩⟩ := hv
+      exact claimC_pipe nl _ _ hxt hyt hxn hyn hyc hynb ((B_cmd xc hxc).2 hxao) ((B_cmd yc hyc).1 hynb)
+theorem B_stmts : ∀ (ss : LStmts), ss.valid = true → ClaimL ss
+  | .one s nl, hv => claimL_one s nl (by simpa [LStmts.valid] using hv) (B_stmt s (by simpa [LStmts.valid] using hv)).1
+  | .cons s nl rest, hv => by
+    simp only [LStmts.valid, Bool.and_eq_true] at hv
+    exact claimL_cons s nl rest hv.1.1 hv.2 hv.1.2 (B_stmt s hv.1.1).1 (B_stmts rest hv.2)
+end
+
+
+/-! ## The parser on the tokens of a layout tree -/
+
+/-- A token list (valid positions) matching the tokens of a valid layout tree, optionally after
+    a newline, and ending in `eof`, parses to a file with the tree's norm. -/
+theorem parseToks_layout (ss : LStmts) (hv : ss.valid = true) (nl0 : Bool) (tps : List TokPos) (hpv : posValid tps)
+    (hm : toksMatch (nlT nl0 ++ (ss.toks ++ [.eof])) tps) :
+    ∃ f, parseToks tps = .ok f ∧ f.norm = ss.norm := by
+  obtain ⟨ss', tps', h1, h2, _, h4, _, _⟩ := B_stmts ss hv false false true nl0 .eof [] tps [] (parseFuelFor tps)
+    (Or.inl rfl) (by simp [closerOK]) hm hpv (by simp [parseFuelFor])
+  obtain ⟨t, p, ts, rfl, hma, _⟩ := toksMatch_cons h2
+  simp only [tokMatch] at hma
+  subst hma
+  refine ⟨⟨Stmts.ofList ss'⟩, ?_, ?_⟩
+  · unfold parseToks parseToksF
+    rw [h1]
+    simp [PS.tok_cons]
+  · simp [File.norm, normList_ofList, h4]
 
 end ShVerif.L4
